@@ -88,7 +88,7 @@ def model_fs(tree: dict, sb: str, cwd: str | None = None):
     node = model_node(tree, sb)
     for comp in reversed([c for c in sb.split("/") if c]):
         node = {"d": [[cps(comp), node]]}
-    return {"root": node, "cwd": [cps(c) for c in (cwd or sb).split("/") if c], "max": MAXLINKS}
+    return {"root": node, "cwd": [cps(c) for c in (cwd or sb).split("/") if c], "max": MAXLINKS, "extra": 1000}
 
 
 class Sandbox:
@@ -638,5 +638,254 @@ class PkgStream(LoaderStream):
         return ["c22_pkg", model_fs(self.tree_of(case, pkg), sb), cfg, [cps(n.replace("$SB", sb).replace("/pk/PKG/", f"/pk/{pkg}/")) for n in case["names"]]]
 
 
+# ---------------------------------------------------------------------------------------------
+# primitives: pathlib parsing / with_suffix, and the kernel walk
+# ---------------------------------------------------------------------------------------------
+def _s(cpl):
+    return "".join(chr(c) for c in cpl)
+
+
+WEIRD = ["\x00", "\n", "\x7f", "é", "\U0001d518", "\udc80", "\ud800", " ", "\\", "~", "．", "-", "A"]
+
+
+def random_names(rng, n):
+    out = []
+    for _ in range(n):
+        k = rng.range(0, 14)
+        alphabet = ["/", "/", ".", ".", "a", "b", "txt", "liquid", "..", "//", "./"] + ([rng.choice(WEIRD)] if rng.chance(50) else [])
+        out.append("".join(rng.choice(alphabet) for _ in range(k)))
+    return out
+
+
+class PathlibStream(Stream):
+    """PurePosixPath(s): root, parts, name, suffix, is_absolute, str — against `parse`/`suffixOf`."""
+
+    name = "pathlib"
+    exhaustive = True
+    parallel = False
+
+    def cases(self, ctx):
+        import itertools
+
+        out = []
+        for alphabet, L in (("/.ab", ctx.scale(6, 7)), ("/.a", ctx.scale(8, 10))):
+            for n in range(0, L + 1):
+                for t in itertools.product(alphabet, repeat=n):
+                    out.append("".join(t))
+        out = sorted(set(out))
+        out += random_names(ctx.rng_for("pathlib"), ctx.scale(600, 6000))
+        return out
+
+    def impl(self, case):
+        from pathlib import PurePosixPath
+
+        p = PurePosixPath(case)
+        return {"root": len(p.root), "parts": list(p.parts[1:] if p.root else p.parts), "name": p.name, "suffix": p.suffix,
+                "abs": p.is_absolute(), "str": str(p)}
+
+    def line(self, case):
+        return ["c22_path", cps(case)]
+
+    def canon_model(self, case, mobs):
+        if not isinstance(mobs, dict) or "parts" not in mobs:
+            return mobs
+        return {"root": mobs["root"], "parts": [_s(x) for x in mobs["parts"]], "name": _s(mobs["name"]), "suffix": _s(mobs["suffix"]),
+                "abs": mobs["abs"], "str": _s(mobs["str"])}
+
+    def oracle(self, case, obs):
+        # what the loaders rely on: a component never contains a separator, is never '' or '.'
+        for c in obs["parts"]:
+            if "/" in c or c in ("", "."):
+                return ("pathlib|dirty-component", f"PurePosixPath({case!r}).parts = {obs['parts']}")
+        return None
+
+    def nontrivial(self, case, obs):
+        return obs["root"] > 0 or "." in case or obs["suffix"] != ""
+
+    def tags(self, case, obs):
+        return [f"root{obs['root']}", "suffix" if obs["suffix"] else "nosuffix", "dotdot" if ".." in obs["parts"] else "nodotdot"]
+
+
+SUFFIXES = ["", ".", "..", ".x", "x", ".a/b", "/", ".tar.gz", ". ", ".\x00", ".liquid", "...", "./", ".é"]
+
+
+class SuffixStream(Stream):
+    """PurePosixPath(s).with_suffix(ext) — result or ValueError — against `withSuffix`."""
+
+    name = "suffix"
+    exhaustive = True
+
+    def cases(self, ctx):
+        import itertools
+
+        names = []
+        for n in range(0, ctx.scale(4, 5) + 1):
+            for t in itertools.product("/.ab", repeat=n):
+                names.append("".join(t))
+        names += random_names(ctx.rng_for("suffix"), ctx.scale(100, 1000))
+        return [[n, e] for n in names for e in SUFFIXES]
+
+    def impl(self, case):
+        from pathlib import PurePosixPath
+
+        try:
+            return {"ok": str(PurePosixPath(case[0]).with_suffix(case[1]))}
+        except ValueError:
+            return {"err": "ValueError"}
+
+    def line(self, case):
+        return ["c22_suffix", cps(case[0]), cps(case[1])]
+
+    def canon_model(self, case, mobs):
+        if isinstance(mobs, dict) and "ok" in mobs:
+            return {"ok": _s(mobs["ok"])}
+        return mobs
+
+    def nontrivial(self, case, obs):
+        return True
+
+    def tags(self, case, obs):
+        return ["ok" if "ok" in obs else "ValueError"]
+
+
+FS_PREFIXES = ["$SB/root/", "$SB/root/", "root/", "$SB/root/sub/../", "$SB/rootlnk/", "$SB/outside/", "", "./root/", "$SB/root/sub/",
+               "$SB/chains/", "//$SB/root/", "$SB/pk/PKG/templates/"]
+
+
+class FsPrimStream(Stream):
+    """os.stat / Path.exists / Path.is_file / Path.resolve(strict=False) / open().read() on a real sandbox
+    tree against the model's walk (`kstat`, `pyExists`, `pyIsFile`, `pyResolve`, `pyRead`)."""
+
+    name = "fsprim"
+    parallel = True
+
+    def cases(self, ctx):
+        rng = ctx.rng_for("fsprim")
+        out = []
+        for _ in range(ctx.scale(120, 1200)):
+            tg = TreeGen(rng)
+            tree = tg.tree(links=True)
+            root = tree["d"]["root"]
+            through = through_link_paths(root, tree)
+            basepaths = walk_paths(root)
+            paths = []
+            for _ in range(rng.range(12, 20)):
+                n, t = mutate_name(rng, rng.choice(basepaths), "$SB", through)
+                if t == "absolute-sys":  # the model tree holds the sandbox only
+                    n = rng.choice(["/", "//", "/.", "/..", "/c22-no-such-dir/x"])
+                pre = "" if n.startswith("/") or n.startswith("$SB") else rng.choice(FS_PREFIXES)
+                paths.append(pre + n)
+            paths += [rng.choice(["$SB/chains/c0", "$SB/chains/d0", "$SB/chains/c1", "$SB/chains/d1", "$SB/chains/d2", "$SB/root/long_chain.txt",
+                                  "$SB/root/too_long_chain.txt", "$SB/root/loopA", "$SB/root/self/x", "$SB/root/dangling.txt", "$SB/root/up/root/up/a.txt",
+                                  "$SB/root/dirback/../a.txt", "$SB/root/dir_out/../a.txt", "$SB/root/lnk_in/..", "$SB/root/a.txt/..", "$SB/root/sub/..",
+                                  "$SB/root/missing/..", "$SB/root/missing/../a.txt"])]
+            out.append({"tree": tree, "paths": paths})
+        return out
+
+    def impl(self, case):
+        import errno
+        from pathlib import Path
+
+        pkg = "PKG"
+        with Sandbox(case["tree"]) as box:
+            sb = box.sb
+            old = os.getcwd()
+            os.chdir(sb)
+            res = []
+            try:
+                for raw in case["paths"]:
+                    P = Path(raw.replace("$SB", sb))
+                    r = {}
+                    try:
+                        st = os.stat(P)
+                        import stat as _st
+
+                        if _st.S_ISDIR(st.st_mode):
+                            r["stat"] = "dir"
+                        else:
+                            with open(P, encoding="utf-8") as fd:
+                                r["stat"] = ["file", _cid(fd.read())]
+                    except OSError as e:
+                        r["stat"] = errno.errorcode.get(e.errno, str(e.errno))
+                    except ValueError:
+                        r["stat"] = "ValueError"
+                    for key, fn in (("exists", P.exists), ("is_file", P.is_file)):
+                        try:
+                            r[key] = bool(fn())
+                        except OSError:
+                            r[key] = {"err": "OSError"}
+                        except Exception as e:  # noqa: BLE001
+                            r[key] = {"err": type(e).__name__}
+                    try:
+                        r["resolve"] = {"ok": str(P.resolve(strict=False))}
+                    except OSError:
+                        r["resolve"] = {"err": "OSError"}
+                    except Exception as e:  # noqa: BLE001
+                        r["resolve"] = {"err": "ValueError" if isinstance(e, ValueError) else type(e).__name__}
+                    try:
+                        with open(P, encoding="utf-8") as fd:
+                            r["read"] = _cid(fd.read())
+                    except OSError:
+                        r["read"] = {"err": "OSError"}
+                    except ValueError:
+                        r["read"] = {"err": "ValueError"}
+                    res.append(r)
+            finally:
+                os.chdir(old)
+            return {"sb": sb, "res": res}
+
+    def line_obs(self, case, obs):
+        sb = obs["sb"]
+        return ["c22_fsop", model_fs(case["tree"], sb), [cps(p.replace("$SB", sb)) for p in case["paths"]]]
+
+    @staticmethod
+    def _mask(r):
+        # resolve() on a path whose stat() is ELOOP is outside what the loaders can reach (exists() is False
+        # there) and outside the model: os.path.realpath leaves a looping link unresolved and a later '..' may
+        # cancel it lexically, where the model's budgeted walk reports the loop.
+        if r.get("stat") == "ELOOP":
+            r = dict(r)
+            r["resolve"] = "not-compared"
+        return r
+
+    def compare_view(self, case, obs):
+        return [self._mask(r) for r in obs["res"]]
+
+    def canon_model(self, case, mobs):
+        if not isinstance(mobs, list):
+            return mobs
+        out = []
+        for r in mobs:
+            r = dict(r)
+            if isinstance(r.get("resolve"), dict) and "ok" in r["resolve"]:
+                r["resolve"] = {"ok": _s(r["resolve"]["ok"])}
+            out.append(self._mask(r))
+        return out
+
+    def oracle(self, case, obs):
+        if not isinstance(obs, dict):
+            return None
+        # the facts the theorems lean on, stated on the real kernel: stat OK => resolve() succeeds
+        for raw, r in zip(case["paths"], obs["res"]):
+            if isinstance(r["stat"], list) and not (isinstance(r["resolve"], dict) and "ok" in r["resolve"]):
+                return ("fsprim|resolve-fails-on-existing-file", f"{raw[:80]!r}: stat ok but resolve() gave {r['resolve']}")
+        return None
+
+    def nontrivial(self, case, obs):
+        return True
+
+    def tags(self, case, obs):
+        t = []
+        for r in obs["res"]:
+            t.append("stat:" + (r["stat"] if isinstance(r["stat"], str) else "file"))
+            t.append("resolve:" + ("ok" if "ok" in r["resolve"] else r["resolve"]["err"]))
+        return t
+
+    def shrink_candidates(self, case):
+        if len(case["paths"]) > 1:
+            for p in case["paths"]:
+                yield {"tree": case["tree"], "paths": [p]}
+
+
 def streams(ctx):
-    return [FslStream(), PkgStream()]
+    return [PathlibStream(), SuffixStream(), FsPrimStream(), FslStream(), PkgStream()]
